@@ -66,3 +66,22 @@ Theorem buffered_writer_concat : forall bufsize ps wbuf bl wbuf' bl' outs,
   exists ls, lines_of ps = Some ls /\ concat outs ++ wbuf' = wbuf ++ ls.
 Proof. exact bw_run_concat. Qed.
 Print Assumptions buffered_writer_concat.
+
+(* ---------- capability lists and ref advertisement lines (Model/Caps.v) ---------- *)
+From DV Require Import RefName PackedFile Caps CapsP.
+
+(* a ref line carrying any list of capabilities (none included; each a non-empty
+   token without NUL or white space) parses back to the id, the name and exactly
+   that list *)
+Theorem ref_line_with_capabilities_roundtrip : forall sha ref cs,
+  valid_hexsha sha = true -> check_ref_format ref = true -> forallb tokenb cs = true ->
+  extract_capabilities (format_ref_line ref sha (Some cs)) = Some (sha ++ [SP] ++ ref, cs).
+Proof. exact caps_roundtrip_lemma. Qed.
+Print Assumptions ref_line_with_capabilities_roundtrip.
+
+(* and a ref line without the NUL carries no capabilities *)
+Theorem ref_line_without_capabilities : forall sha ref,
+  valid_hexsha sha = true -> check_ref_format ref = true ->
+  extract_capabilities (format_ref_line ref sha None) = Some ((sha ++ [SP] ++ ref) ++ [LF], []).
+Proof. exact no_caps_lemma. Qed.
+Print Assumptions ref_line_without_capabilities.
